@@ -61,6 +61,7 @@ class DC:
         self.envelope_override: t.Optional[t.Callable[[gkdi.Envelope], gkdi.Envelope]] = None
         self.server_tokens: t.List[bytes] = [b"S-TOKEN-1", b"S-TOKEN-2", b"S-TOKEN-3", b"S-TOKEN-4"]
         self.server_legs = 1  # scripted context: number of server tokens before it is complete
+        self.authorised_roots: t.Optional[t.Set[uuid.UUID]] = None  # when set: seed keys only for these root keys, public key for the others
 
     # -- transport entry point
     def connect(self, host: str, port: int) -> "Conn":
@@ -106,8 +107,9 @@ class DC:
             return None, 0x80070057
         else:
             pos = self.returned_position((l0, l1, l2))
-        self.returned.append((rk.rkid, sd, pos, self.authorised))
-        env = gkdi.server_envelope(rk, sd, pos[0], pos[1], pos[2], chain=gkdi.chain_cached(rk.hash_name, rk.key, rk.rkid, sd, pos[0]), authorised=self.authorised, domain=self.domain, forest=self.forest, with_l2_at_31=self.l2_at_31)
+        authorised = self.authorised if self.authorised_roots is None else (rk.rkid in self.authorised_roots)
+        self.returned.append((rk.rkid, sd, pos, authorised))
+        env = gkdi.server_envelope(rk, sd, pos[0], pos[1], pos[2], chain=gkdi.chain_cached(rk.hash_name, rk.key, rk.rkid, sd, pos[0]), authorised=authorised, domain=self.domain, forest=self.forest, with_l2_at_31=self.l2_at_31)
         if self.envelope_override:
             env = self.envelope_override(env)
         return gkdi.pack_envelope(env), 0
